@@ -27,18 +27,20 @@ func TestReplay(t *testing.T) {
 			files = append(files, m...)
 		} else if err == nil {
 			files = append(files, p)
+		} else {
+			t.Errorf("REPLAY-BAD %s: %v", p, err)
 		}
 	}
 	only := os.Getenv("VERIF_REPLAY_PROPERTY")
 	for _, f := range files {
 		b, err := os.ReadFile(f)
 		if err != nil {
-			t.Errorf("%s: %v", f, err)
+			t.Errorf("REPLAY-BAD %s: %v", f, err)
 			continue
 		}
 		var e Envelope
 		if err := json.Unmarshal(b, &e); err != nil {
-			t.Errorf("%s: %v", f, err)
+			t.Errorf("REPLAY-BAD %s: %v", f, err)
 			continue
 		}
 		if only != "" && e.Property != only {
@@ -46,7 +48,7 @@ func TestReplay(t *testing.T) {
 		}
 		v, err := Replay(e)
 		if err != nil {
-			t.Errorf("%s: %v", f, err)
+			t.Errorf("REPLAY-BAD %s: %v", f, err)
 			continue
 		}
 		StatsFor(e.Property + ".replayed").Eval()
